@@ -245,14 +245,11 @@ impl AstNode for StakeDelegationCertificate {
     const RULE: Rule = Rule::cardano_stake_delegation_certificate;
 
     fn parse(pair: Pair<Rule>) -> Result<Self, Error> {
-        let span = pair.as_span().into();
-        let mut inner = pair.into_inner();
-
-        Ok(StakeDelegationCertificate {
-            pool: DataExpr::parse(inner.next().unwrap())?,
-            stake: DataExpr::parse(inner.next().unwrap())?,
-            span,
-        })
+        // neither lowering nor the Cardano compiler implement this certificate yet
+        Err(Error::at(
+            &pair,
+            "stake delegation certificates are not supported yet",
+        ))
     }
 
     fn span(&self) -> &Span {
